@@ -50,6 +50,10 @@ def beforeKind : Kind where
     | some c => { st := st, spec := some c }
     | none =>
     match l.op, l.res with
+    | "purge", _ =>
+      -- the cache's cleanup: removes expired entries only (C08: `deleteExpired` keeps every live entry), and the
+      -- entry of `Before` does not expire (NoExpiration, or a zero default) -- no effect
+      { st := st, tags := ["before:purge"], spec := if l.res == [.atom "ok"] then none else some "before:purge" }
     | "call", [.int ran, .int ret] =>
       let k := st.k + 1
       let should := beforeRuns st.n k
@@ -84,6 +88,10 @@ def onceKind : Kind where
     match l.op, l.args, l.res with
     | "sleep", [.int ms], _ =>
       { st := { st with cands := st.cands.map fun s => { s with now := s.now + ms }, now := st.now + ms }, tags := ["sleep"] }
+    | "purge", _, _ =>
+      -- the cache's cleanup removes the entry only if it has expired, and then `Once` would run again anyway: the
+      -- monitor's candidates (entry lives / has expired, by the clock) and the model cell are unaffected
+      { st := st, tags := ["once:purge"], spec := if l.res == [.atom "ok"] then none else some "once:purge" }
     | "call", [], [.int ran, .int ret] =>
       -- the value a run would produce now: 100 + (runs so far + 1)
       let fresh : Int := st.base + st.runs + 1
